@@ -2,6 +2,7 @@
 #pragma once
 #include "gs_ref.h"
 #include <cstring>
+#include <new>
 #include <igris/protocols/gstuff.h>
 
 extern "C"
@@ -36,29 +37,98 @@ namespace gs
         return k == V0 ? gstuff_context_v0() : gstuff_context();
     }
 
-    // layout twin of gstuff_autorecv, only used to *read* the private automaton state for coverage reporting
-    struct RecvTwin
+    // Where the gstuff_context handed to the receiver's constructor lives.  The receiver must keep decoding with
+    // the alphabet it was constructed with whatever happens to that object afterwards (it is documented to take
+    // the context by value).  Dangling uses show up under ASan (heap-use-after-free, stack-use-after-return).
+    enum RxSrc
     {
-        struct sline line;
-        uint8_t crc;
-        uint8_t state;
-        gstuff_context ctx;
+        SRC_OWN = 0,           // a context that lives exactly as long as the receiver
+        SRC_TEMPORARY = 1,     // a by-value temporary in the constructor call
+        SRC_FACTORY_LOCAL = 2, // a local variable of a factory function that has returned
+        SRC_HEAP_FREED = 3,    // a heap-allocated context that is deleted right after construction
+        SRC_REASSIGNED = 4,    // a variable that is re-assigned to another alphabet after construction
+        NSRC = 5
     };
-    static_assert(sizeof(RecvTwin) == sizeof(gstuff_autorecv), "gstuff_autorecv layout changed: update RecvTwin");
+    static const char *const SRC_NAME[NSRC] = {"own", "temporary", "factory-local", "heap-freed", "reassigned"};
 
+    __attribute__((noinline)) static void scribble_stack()
+    {
+        volatile unsigned char junk[768];
+        for (size_t i = 0; i < sizeof junk; i++)
+            junk[i] = 0x5E;
+    }
+    __attribute__((noinline)) static void construct_from_factory_local(void *where, Codec k)
+    {
+        gstuff_context local = ctx_of(k);
+        new (where) gstuff_autorecv(local);
+    }
+    __attribute__((noinline)) static void construct_from_temporary(void *where, Codec k) { new (where) gstuff_autorecv(ctx_of(k)); }
+
+    // No dependency on the private layout of gstuff_autorecv and none on its assignability: the object lives in raw
+    // storage and is re-created with destroy + placement-new.
     struct Rx
     {
         Codec k;
-        gstuff_autorecv cpp;
+        int src;
+        gstuff_context own_ctx;
+        gstuff_context alias_ctx;
+        alignas(gstuff_autorecv) unsigned char store[sizeof(gstuff_autorecv)];
+        bool built = false;
         alignas(16) unsigned char lg[96];
         // gstuff_autorecv(uint8_t*, int, gstuff_context) is declared but defined nowhere: construct + init
-        explicit Rx(Codec k_) : k(k_), cpp(ctx_of(k_)) { memset(lg, 0, sizeof lg); }
+        explicit Rx(Codec k_, int src_ = SRC_OWN) : k(k_), src(src_)
+        {
+            memset(lg, 0, sizeof lg);
+            build();
+        }
+        ~Rx() { destroy(); }
+        Rx(const Rx &) = delete;
+        Rx &operator=(const Rx &) = delete;
+        gstuff_autorecv &cpp() { return *std::launder(reinterpret_cast<gstuff_autorecv *>(store)); }
+        void destroy()
+        {
+            if (built)
+                cpp().~gstuff_autorecv();
+            built = false;
+        }
+        void build()
+        {
+            if (k == LEGACY)
+                return;
+            switch (src)
+            {
+            case SRC_TEMPORARY:
+                construct_from_temporary(store, k);
+                break;
+            case SRC_FACTORY_LOCAL:
+                construct_from_factory_local(store, k);
+                break;
+            case SRC_HEAP_FREED:
+            {
+                gstuff_context *h = new gstuff_context(ctx_of(k));
+                new (store) gstuff_autorecv(*h);
+                delete h;
+                break;
+            }
+            case SRC_REASSIGNED:
+                alias_ctx = ctx_of(k);
+                new (store) gstuff_autorecv(alias_ctx);
+                alias_ctx = ctx_of(k == V1 ? V0 : V1);
+                break;
+            default:
+                own_ctx = ctx_of(k);
+                new (store) gstuff_autorecv(own_ctx);
+                break;
+            }
+            built = true;
+            scribble_stack();
+        }
         void init(uint8_t *buf, int cap)
         {
             if (k == LEGACY)
                 lg_init(lg, buf, cap);
             else
-                cpp.init(buf, cap);
+                cpp().init(buf, cap);
         }
         // the same receiver object used for the next packet with another buffer (state as the last packet left it;
         // the legacy object was zero-filled once, in the constructor)
@@ -67,19 +137,28 @@ namespace gs
             if (k == LEGACY)
                 lg_setbuf(lg, buf, cap);
             else
-                cpp.init(buf, cap);
+                cpp().init(buf, cap);
         }
-        // the same configurable receiver object re-assigned in place to another alphabet
+        // buffer hand-over through the setbuf entry points
+        void setbuf(uint8_t *buf, int cap)
+        {
+            if (k == LEGACY)
+                lg_setbuf(lg, buf, cap);
+            else
+                cpp().setbuf(buf, cap);
+        }
+        // the same storage re-used for a receiver of another alphabet (destroy + construct; no operator= needed)
         void rebind(Codec k2)
         {
+            destroy();
             k = k2;
-            cpp = gstuff_autorecv(ctx_of(k2));
+            build();
         }
         int put(uint8_t c)
         {
             if (k == LEGACY)
                 return lg_newchar(lg, c);
-            int s = cpp.newchar((char)c);
+            int s = cpp().newchar((char)c);
             switch (s)
             {
             case GSTUFF_CONTINUE: return ST_CONTINUE;
@@ -93,17 +172,9 @@ namespace gs
             }
             return ST_UNKNOWN;
         }
-        size_t size() { return k == LEGACY ? lg_len(lg) : cpp.size(); }
-        const uint8_t *line() { return (const uint8_t *)(k == LEGACY ? lg_line(lg) : cpp.cstr()); }
+        size_t size() { return k == LEGACY ? lg_len(lg) : cpp().size(); }
+        const uint8_t *line() { return (const uint8_t *)(k == LEGACY ? lg_line(lg) : cpp().cstr()); }
         // bytes of the *packet* at NEWPACKAGE: the legacy receiver keeps the CRC byte in its line
         size_t content_size() { return k == LEGACY ? (size() ? size() - 1 : 0) : size(); }
-        int state()
-        {
-            if (k == LEGACY)
-                return lg_state(lg);
-            RecvTwin t;
-            memcpy((void *)&t, (const void *)&cpp, sizeof t);
-            return t.state;
-        }
     };
 } // namespace gs
